@@ -542,11 +542,10 @@ Definition pin_w (prev : list nvlib) (lib : str) (cells : list nvcell) (c : nvce
   end.
 
 Definition cab_w (e : entry pd) : bool :=
-  text_ok (e_name e) && negb (has_wild (e_name e)) && negb (is_nil (c_wires (e_cab e))) &&
+  text_ok (e_name e) && negb (is_nil (c_wires (e_cab e))) &&
   forallb (fun n : str * str * list pd => ident_w (fst (fst n))) (emit_cable (e_ident e) (e_name e) (e_cab e)) &&
   if is_busb (e_cab e)
-  then negb (starts_amp_us (e_ident e ++ [c_us])) &&
-       match e_name e with c :: _ => negb (N.eqb c c_bsl) | [] => true end &&
+  then match e_name e with c :: _ => negb (N.eqb c c_bsl) | [] => true end &&
        (c_lower (e_cab e) + N.of_nat (List.length (c_wires (e_cab e))) <=? 65536)
   else N.eqb (c_lower (e_cab e)) 0 &&
        match net_bit (e_ident e) (e_name e) with Some (None, _, _) => true | _ => false end.
